@@ -83,6 +83,42 @@ def iop_expected(kind, arg):
         return [max(arg)]
 
 
+def small_scope_pairs(rng, quick, allowed):
+    """Small-scope exhaustive stream: EVERY single-level view (loc, dims, step <= 3 per axis) with all three extents >= 2 of the
+    roots [5,4,5] and [3,4,5] (thorough: also the views with 1-wide axes, and the root [4,3,6]), each as a Go-backed and a
+    C-backed history: gather (Unroll), extremum, block write from a fresh array (CopyFrom) with every buffer read back.
+    A decision taken from a few numbers of the view (its end points, its first stride, its element count) agrees with the
+    element-by-element definition on almost all random views and fails on an arithmetic coincidence; enumeration finds the
+    coincidences that exist in the scope.  One element type per history (rotating), to bound the output."""
+    def axis_views(n, min_dim):
+        out = []
+        for d in range(min_dim, n + 1):
+            for st in (1, 2, 3):
+                for l in range(n):
+                    if l + (d - 1) * st < n and not (d == 1 and st > 1):
+                        out.append((l, d, st))
+        return out
+    roots = [[5, 4, 5], [3, 4, 5]] + ([] if quick else [[4, 3, 6]])
+    ok = lambda k: allowed is None or k in allowed
+    pairs = []
+    k = rng.randrange(len(TYPES))
+    for root in roots:
+        import itertools
+        views = list(itertools.product(*[axis_views(n, 2 if quick else 1) for n in root]))
+        for v in views:
+            loc, dims, step = [x[0] for x in v], [x[1] for x in v], [x[2] for x in v]
+            ops = ['SLICE 0 L %s D %s S %s' % (ag.ints(loc), ag.ints(dims), ag.ints(step))]
+            if ok('UNROLL'): ops.append('UNROLL 1')
+            if ok('MAX'): ops.append('MAX 1')
+            if ok('COPYFROM'): ops += ['NEW g %s' % ag.ints(dims), 'COPYFROM 1 2']
+            ty = TYPES[k % len(TYPES)]; k += 1
+            ga = ag.shadow_replay('ARRH %s NEW g %s ; %s' % (ty, ag.ints(root), ' ; '.join(ops)))
+            gb = ag.shadow_replay('ARRH %s NEW c %s ; %s' % (ty, ag.ints(root), ' ; '.join(ops)))
+            if ga is not None and gb is not None:
+                pairs.append((ga, gb))
+    return pairs
+
+
 def run(pid, opmix, focus_text, manifest_assumptions, extra=None, allowed=None, use_iops=True, oracle='spec', corpus_prefixes=None, unjudged=()):
     c = Check(pid)
     c.prove()
@@ -116,6 +152,8 @@ def run(pid, opmix, focus_text, manifest_assumptions, extra=None, allowed=None, 
         ga = ag.HistoryGen(random.Random(seed), backend_mode='g', types=ty, opmix=opmix, allowed=allowed).gen()
         gb = ag.HistoryGen(random.Random(seed), backend_mode='c', types=ty, opmix=opmix, allowed=allowed).gen()
         pairs.append((ga, gb))
+    n_random_pairs = len(pairs)
+    pairs += small_scope_pairs(rng, quick, allowed)
     mal = [ag.malformed_history(rng, allowed) for _ in range(40 if quick else 600)]
     iops = iop_cases(rng, 150 if quick else 3000) if use_iops else []
     if oracle == 'lockstep':
@@ -246,7 +284,7 @@ def run(pid, opmix, focus_text, manifest_assumptions, extra=None, allowed=None, 
                      'arrayops (6 types); each history runs on all 8 element types through data/ and data/cdata/ and once through the extracted Coq '
                      'model; observables after every op = result + every root buffer + every live view read back by Get; '
                      'non-trivial = contains a slice and a write; %s') % (14 if quick else 22, focus_text)
-    c.finish(extra_cov={'op_histogram': op_hist, 'lockstep_go_vs_c_pairs_equal': goc_equal, 'malformed_histories': len(mal),
+    c.finish(extra_cov={'small_scope_exhaustive_view_pairs': len(pairs) - n_random_pairs, 'op_histogram': op_hist, 'lockstep_go_vs_c_pairs_equal': goc_equal, 'malformed_histories': len(mal),
                         'malformed_panics': mal_panics, 'integer_helper_cases': len(iops), 'corpus_cases': len(corpus_lines),
                         'finding_class_hits': finding_hits, 'element_types': TYPES, **extra_cov},
              assumptions=manifest_assumptions)
